@@ -256,9 +256,29 @@ pub fn in_alphabet(v: &View) -> bool {
     ok(&v.name) && v.attributes.iter().all(|(_, a)| ok(a)) && v.children.iter().all(|(_, c)| in_alphabet(c))
 }
 
+/// a deep tree as a pre-order list of elements with their depth (see proj::proj_flat; RenderTrace!Unflatten)
+pub fn view_flat(v: &View) -> Value {
+    fn walk(v: &View, d: usize, t: &str, out: &mut Vec<Value>) {
+        out.push(json!({"d": d, "t": t, "name": chars(&v.name), "text": v.text, "sa": v.standalone, "cnt": v.count,
+                        "pos": match v.position { Some(p) => p as i64, None => -1 },
+                        "attrs": v.attributes.iter().map(|(m, a)| json!({"t": tag(*m), "v": chars(a)})).collect::<Vec<_>>()}));
+        for (m, c) in &v.children {
+            walk(c, d + 1, tag(*m), out);
+        }
+    }
+    let mut out = Vec::new();
+    walk(v, 0, "M", &mut out);
+    Value::Array(out)
+}
+
 pub fn render_event(e: &Element<String>, opts: &[Options], extra: Value) -> Value {
-    let mut ev = json!({"ev": "Render", "tree": view_chars(&e.verif_view()),
-                        "renders": opts.iter().map(|o| render_record(e, o)).collect::<Vec<_>>()});
+    let view = e.verif_view();
+    let mut ev = json!({"ev": "Render", "renders": opts.iter().map(|o| render_record(e, o)).collect::<Vec<_>>()});
+    if crate::proj::view_depth(&view) > 60 {
+        ev["flat"] = view_flat(&view);
+    } else {
+        ev["tree"] = view_chars(&view);
+    }
     if let (Some(m), Some(x)) = (ev.as_object_mut(), extra.as_object()) {
         for (k, v) in x {
             m.insert(k.clone(), v.clone());
